@@ -31,7 +31,7 @@ func prunedStoreOf(total, n, tail int) (*store.Store[*vhdr.Header], []*vhdr.Head
 		panic(err)
 	}
 	ctx := context.Background()
-	if err := st.Start(ctx); err != nil {
+	if err := func() error { sc, end := startCtx(); defer end(); return st.Start(sc) }(); err != nil {
 		panic(err)
 	}
 	if n > 0 {
@@ -89,7 +89,7 @@ func c10Moving(n, tail, grow int, origin, amount uint64) {
 	if err != nil {
 		panic(err)
 	}
-	if err := srv.Start(ctx); err != nil {
+	if err := func() error { sc, end := startCtx(); defer end(); return srv.Start(sc) }(); err != nil {
 		panic(err)
 	}
 	defer srv.Stop(ctx) //nolint:errcheck
@@ -138,7 +138,7 @@ func c10Store(n, tail int, tier string, r *rng) {
 	if err != nil {
 		panic(err)
 	}
-	if err := srv.Start(ctx); err != nil {
+	if err := func() error { sc, end := startCtx(); defer end(); return srv.Start(sc) }(); err != nil {
 		panic(err)
 	}
 	defer srv.Stop(ctx) //nolint:errcheck
